@@ -910,7 +910,8 @@ func (dc *DirectConnection) WriteSetStatement() error {
 		appendSetVariable(&setVariableSQL, v.Name(), v.Get())
 	}
 
-	for _, v := range dc.sessionVariables.GetUnusedAndClear() {
+	unused := dc.sessionVariables.GetUnusedAndClear()
+	for _, v := range unused {
 		appendSetVariableToDefault(&setVariableSQL, v.Name())
 	}
 
@@ -919,6 +920,9 @@ func (dc *DirectConnection) WriteSetStatement() error {
 		return nil
 	}
 	if _, err := dc.exec(setSQL, 0); err != nil {
+		// nothing of the statement was applied: what this connection recorded about the
+		// backend session is wrong now, make the next user of the connection send it all again
+		dc.sessionVariables.Invalidate(unused)
 		return err
 	}
 	return nil
